@@ -9,6 +9,7 @@ import (
 	"github.com/opsidian/parsley/data"
 	"github.com/opsidian/parsley/parser"
 	"github.com/opsidian/parsley/parsley"
+	"github.com/opsidian/parsley/text"
 	"pgregory.net/rapid"
 )
 
@@ -42,13 +43,36 @@ func checkC06(ci interface{}, st *Stats) error {
 		}
 	}
 	ref := NewRef(g, in)
-	if ref.T[0][0]&(1<<uint(len(in))) != 0 {
-		st.Class("matching input (skipped)")
-		return nil
-	}
 	probe := NewProbe()
 	probe.LogFails = true
 	b := Build(g, BuildOpts{MemoRules: c.memoRules(), Probe: probe})
+	// one file, parsed once per rule as the root: the file object (and its lazily built line
+	// table) is reused by several failing parses whose errors lie at different places
+	file := text.NewFile("f", []byte(in))
+	fs := parsley.NewFileSet(file)
+	judged := 0
+	for root := range g.Rules {
+		if ref.T[root][0]&(1<<uint(len(in))) != 0 {
+			st.Class("matching input (skipped)")
+			continue
+		}
+		probe.termFails, probe.namedFails = nil, nil
+		if err := checkC06Root(c, st, b, probe, fs, file, root); err != nil {
+			if _, isDiscard := err.(Discard); isDiscard {
+				continue
+			}
+			return fmt.Errorf("root N%d: %v", root, err)
+		}
+		judged++
+	}
+	if judged == 0 {
+		return nil
+	}
+	return nil
+}
+
+func checkC06Root(c *GCase, st *Stats, b *Built, probe *Probe, fs *parsley.FileSet, file *text.File, rootRule int) error {
+	g, in := c.G, c.In
 	endP := parser.End()
 	end := parser.Func(func(ctx *parsley.Context, l data.IntMap, pos parsley.Pos) (parsley.Node, data.IntSet, parsley.Error) {
 		n, cp, err := endP.Parse(ctx, l, pos)
@@ -57,8 +81,8 @@ func checkC06(ci interface{}, st *Stats) error {
 		}
 		return n, cp, err
 	})
-	ctx, _ := NewCtx(in)
-	root := combinator.SeqOf(b.NT[0], end)
+	ctx := parsley.NewContext(fs, text.NewReader(file))
+	root := combinator.SeqOf(b.NT[rootRule], end)
 	var node parsley.Node
 	var err error
 	var berr error
